@@ -38,7 +38,7 @@ func init() {
 		},
 		Variants: func(tier string) []string { return []string{"default", "race"} },
 		Run:      run,
-		Require:  []string{"intervals_checked", "intervals_with_both_families", "idle_intervals", "decisive_records_checked", "memory_remainder_checked", "bad_packets_fed"},
+		Require:  []string{"intervals_checked", "intervals_with_both_families", "idle_intervals", "decisive_records_checked", "memory_remainder_checked", "bad_packets_fed", "ifaces_ipv6_only", "ifaces_ipv4_only"},
 	})
 }
 
@@ -64,7 +64,16 @@ func run(c *fw.Case) {
 		if big {
 			n = 5000 + r.Intn(15000)
 		}
-		scripts[i] = capx.GenScript(r, capx.ScriptOpts{NConvs: 8 + r.Intn(33), NPkts: n, V6Prob: 0.45})
+		v6p := 0.45
+		switch {
+		case c.Idx%5 == 4 && i == ifaces[0]:
+			v6p = 1 // an IPv6-only interface (its IPv4 flow table stays empty for the whole run)
+			c.Count("ifaces_ipv6_only", 1)
+		case c.Idx%7 == 6 && i == ifaces[0]:
+			v6p = 0 // an IPv4-only interface
+			c.Count("ifaces_ipv4_only", 1)
+		}
+		scripts[i] = capx.GenScript(r, capx.ScriptOpts{NConvs: 8 + r.Intn(33), NPkts: n, V6Prob: v6p})
 	}
 	nRot := 3 + r.Intn(7)
 	day := gen.DayStart(gen.MinTS) + 86400*int64(1+r.Intn(11000))
